@@ -476,6 +476,9 @@ impl<T: Send + Sync + 'static> Probe<T> {
                     }
                 }
             }
+            if cfg.nested_events && ex.cross_depth == 0 && !nested_candidates(ex).is_empty() {
+                menu.push(opt::NESTED_EVENT);
+            }
             if cfg.cross_act && ex.cross_depth == 0 {
                 // the handler of one subscription's sink may synchronously drive another subscription
                 for (q, qs) in ex.probes.iter().enumerate() {
@@ -505,6 +508,32 @@ impl<T: Send + Sync + 'static> Probe<T> {
                     with(|ex| ex.cross_depth += 1);
                     d.act(opt::PULL);
                     with(|ex| ex.cross_depth -= 1);
+                }
+            },
+            opt::NESTED_EVENT => {
+                let cands = with(|ex| nested_candidates(ex));
+                if !cands.is_empty() {
+                    let k = if cands.len() == 1 {
+                        0
+                    } else {
+                        let idx = with(|ex| {
+                            ex.menus.push(cands.clone());
+                            (ex.menus.len() - 1) as u32
+                        });
+                        choose_ex(cands.len(), Kind::Event, What::Nested(p), &[], idx, false)
+                    };
+                    let ev = cands[k];
+                    if let EvId::SubGreet(s) | EvId::SubData(s) | EvId::SubTerm(s) | EvId::SubErr(s) = ev {
+                        let j = with(|ex| {
+                            ex.cross_depth += 1;
+                            ex.subs[s as usize].puppet
+                        });
+                        rec(Ev::Nested(ev));
+                        if let Some(d) = puppet_driver(j) {
+                            d.drive(s, ev);
+                        }
+                        with(|ex| ex.cross_depth -= 1);
+                    }
                 }
             },
             opt::SUBSCRIBE_NEXT => {
@@ -591,6 +620,51 @@ impl<T: Send + Sync + 'static> ProbeDrive for ProbeHandle<T> {
     fn clear(&self) {
         *self.0.tb.lock().unwrap_or_else(|e| e.into_inner()) = None;
     }
+}
+
+/// upstream events a sink handler may trigger synchronously: spontaneous events of subscriptions
+/// that are not themselves in the middle of a send (a source does not re-enter itself)
+pub fn nested_candidates(ex: &Exec) -> Vec<EvId> {
+    let mut sending: Vec<u16> = vec![];
+    let mut depth: Vec<Option<u16>> = vec![];
+    // reconstruct the open puppet sends of the current top-level event
+    let start = ex.trace.iter().rposition(|e| matches!(e, Ev::Top(_))).unwrap_or(0);
+    for ev in &ex.trace[start..] {
+        match ev {
+            Ev::Send(a, _) | Ev::In(a, _) => depth.push(if let Actor::Sub(s) = a { Some(*s) } else { None }),
+            Ev::Ret(_) | Ev::Out(_) => {
+                depth.pop();
+            },
+            _ => {},
+        }
+    }
+    for d in depth.iter().flatten() {
+        sending.push(*d);
+    }
+    let cfg = &ex.cfg;
+    let mut v = vec![];
+    for (s, st) in ex.subs.iter().enumerate() {
+        let s = s as u16;
+        if st.over() || sending.contains(&s) {
+            continue;
+        }
+        if !st.greeted {
+            v.push(EvId::SubGreet(s));
+            continue;
+        }
+        let mode = cfg.modes.get(st.puppet as usize).copied().unwrap_or(PMode::Mixed);
+        if mode == PMode::Pullable {
+            continue;
+        }
+        if st.sent_data < cfg.data_budget {
+            v.push(EvId::SubData(s));
+        }
+        v.push(EvId::SubTerm(s));
+        if cfg.puppet_err {
+            v.push(EvId::SubErr(s));
+        }
+    }
+    v
 }
 
 // ------------------------------------------------------------------------------------------------
